@@ -169,8 +169,13 @@ UncommittedMemb(s) == {k \in 1..Len(s.log) : s.log[k].idx > s.commit /\ IsMemb(s
 OneChangeAtATime ==
   \A n \in Nodes : (Live(n) /\ node[n].role = "L") =>
      /\ Cardinality(UncommittedMemb(node[n])) <= 1
+     \* (the position of its own no-op is read off the log - the first entry of its term -, not from its bookkeeping)
      /\ \A k \in UncommittedMemb(node[n]) :
-           (node[n].log[k].term = node[n].term) => node[n].log[k].idx > node[n].noopIdx
+           (node[n].log[k].term = node[n].term) =>
+              LET own == {j \in 1..Len(node[n].log) : node[n].log[j].term = node[n].term}
+                  first == CHOOSE j \in own : \A i \in own : j <= i
+              IN /\ node[n].log[k].idx > node[n].log[first].idx
+                 /\ node[n].applied >= node[n].log[first].idx
 RECURSIVE FoldView(_, _, _)
 FoldView(view, n, es) ==
   IF es = <<>> THEN view
